@@ -383,6 +383,11 @@ def main():
     os.makedirs(os.path.join(ROOT, "evidence"), exist_ok=True)
     os.makedirs(os.path.join(ROOT, "replays", pid), exist_ok=True)
     evpath = os.path.join(ROOT, "evidence", pid + ".json")
+    if REPO != "/repo":
+        # runs against a scratch copy of the repository (seeded changes, agents' private worktrees) never touch the
+        # evidence of the registered checks
+        os.makedirs(os.path.join(ROOT, ".work", "evidence_alt"), exist_ok=True)
+        evpath = os.path.join(ROOT, ".work", "evidence_alt", pid + ".json")
     known, fixed = load_known()
     violations = []   # dict(kind, replay, found_input(bool), detail)
     notes = []
